@@ -167,6 +167,8 @@ OVERRIDES = [
         bounded='lists of three complex selectors / two pseudo selectors, every combination of callee results (removed / matches anything / kept); pseudo names not, is, where, slotted, hover')),
     (r'^c11_unitset_scale_to_general_branch', dict(functions=['UnitSet::scale_to (complete body, extracted unchanged; Unit / UnitSet / Div / powi are stand-ins)'],
         bounded='one pair of two-unit sets, both directions, plus one dimension mismatch')),
+    (r'^c07_declaration_value_', dict(functions=['css::Property::write (complete body, extracted unchanged, on the real CssBuf; the value is a stand-in rendering to a fixed text with a line break)'],
+        bounded='one rendered text ("a\\nb"), three value kinds, both styles')),
     (r'^c16_assignment_updates', dict(functions=['Scope::set_variable (flag logic after the module case; extracted range)'], bounded=None)),
     (r'^c17_for_end_unit', dict(functions=['sass::SrcRange::evaluate (unit conversion of the end value, extracted range)'],
                                 bounded='seven concrete (value, unit, unit) triples')),
@@ -281,7 +283,8 @@ FILE_ASSUMPTIONS = {
     'list.rs': ['std::fmt::format stubbed to return an empty String in c28_index_of (error TEXT unchecked, error PRESENCE checked)',
                 SNIP + 'join / append / set-nth / index are instantiated at element type u8 (get_list -> destructuring of the harness list type, Value::List -> its constructor, '
                 'list.index\'s result wrapping -> Option<usize>); argument fetches are parameters'],
-    'unitset.rs': [SNIP + 'UnitSet::scale_to: only the head (which branch is taken); the compound branch (BTreeMap in dimension(), powi) is cut off and replaced by a marker'],
+    'unitset.rs': [SNIP + 'UnitSet::scale_to: the head (which branch is taken) on the real types with the compound branch cut off and replaced by a marker; the complete body, general branch included, in `mod general_branch` against stand-ins: Div for &UnitSet lists self\'s units and other\'s with negated exponents, dimension() is a count, powi is exact for -2..2 — that the real Div / dimension() / f64::powi behave accordingly is NOT proved'],
+    'sel_selector.rs': [SNIP + 'level harnesses (`mod levels`): each no_placeholder body is checked against a stand-in for the type one level down that returns every Opt case; the structural induction that composes the four levels on a real nested selector is not machine-checked'],
     'operator.rs': [SNIP + 'only the numeric arms of + and - and the and / or arms of Operator::eval are extracted'],
     'range.rs': [SNIP + 'Invalid is a local stand-in with the one constructor the range uses (the real one formats an error text); std::fmt::format stubbed'],
     'cssbuf.rs': ['format::long_indent replaced at CssBuf call sites by its contract (long_indent_by_contract); the contract itself is '
